@@ -187,7 +187,9 @@ def c17_6(ctx):
     ctx.rule('C17.6', 'include directories: source directory first, de-duplicated by exact real path', 3)
     eng = ctx.repo.func(ENGINE)
     d = [n for n in walk_no_nested(eng.node) if isinstance(n, ast.Assign) and unparse(n.targets[0]) == 'include_dirs']
-    d.sort(key=lambda n: n.lineno)
+    from engine.helpers import source_order
+    so_ = source_order(eng.node)
+    d.sort(key=lambda n: so_[id(n)])
     first = d[0] if d else None
     ok = first is not None and unparse(first.value) == '[os.path.dirname(self._source_file)] + list(self._include_paths)'
     ctx.check(ok, 'dirs:source-dir-and-options', eng.site(first) if first else eng.site(), 'the search directories are the source file\'s directory plus the -I directories',
